@@ -13,7 +13,7 @@ def split_return(fdef):
   return fdef.body[:-1], fdef.body[-1]
 
 
-def generate(grist_dir, update_pins=False):
+def generate(grist_dir):
   g = cb2v_spec.Gen(grist_dir)
   cb, tb = g.trees['codebuilder'], g.trees['textbuilder']
   pins = {}
@@ -51,11 +51,39 @@ def generate(grist_dir, update_pins=False):
         skip=['atok = asttokens.ASTText(builder.get_text())'], local_types={'unindent_patches': 'Lpatch'},
         extra=[('formula_body', 'text'), ('have_ml', 'B'), ('tree', 'node')])
 
-  pins['_do_make_formula_body'] = pin_hash(funcdef(cb, '_do_make_formula_body'))
-  cb2v_spec.check_pins(pins, update=update_pins)
-  return cb2v_spec.HEADER + '\n'.join(g.defs)
+  # _do_make_formula_body, first part: from `formula_builder_text = Text(formula)` to `formula = ....get_text()`
+  # (line ends, _dedent): the value of `formula` the rest of the function works on
+  f = funcdef(cb, '_do_make_formula_body')
+  def target(s):
+    return s.targets[0].id if isinstance(s, ast.Assign) and isinstance(s.targets[0], ast.Name) else None
+  starts = [i for i, s in enumerate(f.body) if target(s) == 'formula_builder_text']
+  ends = [i for i, s in enumerate(f.body) if target(s) == 'formula' and 'get_text' in ast.unparse(s.value)]
+  if not starts or not ends or ends[-1] < starts[0]:
+    raise Untranslatable('_do_make_formula_body: the statements that compute `formula` were not found')
+  ret = ast.parse('return formula').body[0]
+  g.add('_do_make_formula_body', 'gen_formula_text', f, ['text', '_', '_'], 'res', 'text',
+        stmts=f.body[starts[0]:ends[-1] + 1] + [ret])
+  # _do_make_formula_body, the loop over ast.walk(tree): the multi-line hint and the `$name` patches (the third
+  # `if` of the loop body, the lambda wrapping of IF/ISERR/... arguments, is left out: pinned)
+  loops = [s for s in f.body if isinstance(s, ast.For) and ast.unparse(s.iter) == 'ast.walk(tree)']
+  if len(loops) != 1:
+    raise Untranslatable('_do_make_formula_body: the loop over ast.walk(tree) was not found')
+  lazy = [st for st in loops[0].body if isinstance(st, ast.If) and 'ast.Call' in ast.unparse(st.test)]
+  inits = [s for s in f.body if target(s) in ('patches', 'have_multiline_strings')
+           and isinstance(s.value, (ast.List, ast.Constant))]
+  ret = ast.parse('return (have_multiline_strings, patches)').body[0]
+  g.funcs['tmp_formula.map_back_offset'] = ('gen_map_back_offset tmp_io tmp_oo false (fun z_ => Ok z_)',
+                                            [('out_pos', 'Z')], ('res', 'Z'))
+  g.add('_do_make_formula_body', 'gen_walk', f, ['text', '_', '_'], 'res', ('tuple', 'B', 'Lpatch'),
+        stmts=inits + [loops[0], ret], opaque={'ast.walk(tree)': ('nodes', 'Lnode')},
+        skip=[ast.unparse(st) for st in lazy], local_types={'patches': 'Lpatch'},
+        extra=[('tmp_io', 'LZ'), ('tmp_oo', 'LZ'), ('nodes', 'Lnode')])
+  pins['_do_make_formula_body'] = pin_hash(f)
+  return cb2v_spec.HEADER + '\n'.join(g.defs), pins
 
 
 if __name__ == '__main__':
   import sys
-  print(generate(sys.argv[1], update_pins='--update-pins' in sys.argv))
+  text_, pins_ = generate(sys.argv[1])
+  cb2v_spec.check_pins(pins_, update='--update-pins' in sys.argv)
+  print(text_)
